@@ -20,6 +20,11 @@ fn main() {
         println!("{}", all.len());
         return;
     }
+    if args.len() >= 5 && args[1] == "--hist" {
+        let a: Vec<String> = args[2..].to_vec();
+        let child = std::thread::Builder::new().stack_size(1 << 30).spawn(move || suiron_monitor::props::timing::hist_main(&a)).unwrap();
+        match child.join() { Ok(code) => std::process::exit(code), Err(_) => std::process::exit(3) }
+    }
     if args.len() < 7 {
         eprintln!("usage: worker <prop> <quick|thorough> <seed> <shard> <nshards> <outdir> [--from N] [--only N]");
         std::process::exit(3);
